@@ -1460,6 +1460,28 @@ pub fn generate(rng: &mut Rng, tier: Tier, emit: &mut dyn FnMut(String)) {
         emit(case_line(&nofeat, false, 's', None, &frame_bytes(1, 0, 2, &z)));
     }
 
+    // `read_response_frame` alone: headers announcing far more than arrives (EOF after 0 / few / many body bytes);
+    // the capacity its body buffer reaches is compared with the model (1 MiB up front, then doubling)
+    for ln in [0xffff_ffffu32, 0x7fff_ffff, 0x1000_0000, (1 << 20) + 1, 1 << 20, (1 << 20) - 1, 70_000, 65_536, 65_535, 5, 0] {
+        for present in [0usize, 1, 4, 7, 70_000, (1 << 20) + 5] {
+            let mut fr = vec![0x84, 0, 0, 0, 2];
+            fr.extend_from_slice(&ln.to_be_bytes());
+            fr.extend(std::iter::repeat(7u8).take(present));
+            emit(format!("h {}", hex(&fr)));
+            if present <= 7 {
+                // the same through the whole pipeline
+                emit(case_line(&nofeat, false, 'n', None, &fr));
+            }
+        }
+    }
+    {
+        // a body that outgrows the up-front allocation twice (2.5 MiB of a 3 MiB announcement)
+        let mut fr = vec![0x84, 0, 0, 0, 2];
+        fr.extend_from_slice(&(3u32 << 20).to_be_bytes());
+        fr.extend(std::iter::repeat(1u8).take(5 << 19));
+        emit(format!("h {}", hex(&fr)));
+    }
+
     // primitive readers
     let prims = ["short", "int", "long", "intlen", "cons", "string", "lstring", "bytes", "sbytes", "bytesopt", "uuid", "inet", "strlist", "strmap", "bytesmap", "strmmap", "value"];
     for _ in 0..4000 * scale {
